@@ -11,6 +11,7 @@ LineOK(line) ==
    LET bad == Failed(line.obs) IN
    bad = {} \/ CSVWrite("%1$s", <<ToJson([case |-> line.case, c |-> line.c, failed |-> bad, obs |-> line.obs,
                                            msg |-> (IF "msg" \in DOMAIN line THEN line.msg ELSE ""),
+                                           applied |-> (IF "applied" \in DOMAIN line THEN line.applied ELSE <<>>),
                                            class |-> Class(line, bad)])>>, "violations.ndjson")
 Judge == l > 0 => LineOK(Trace[l])
 AllConsumed == TLCGet("stats").diameter = Len(Trace) + 1
